@@ -38,9 +38,9 @@
 //                               CL together with TE: rejecting, or framing by TE alone, are both accepted
 //                               (RFC 9112 §6.1).
 //   terminates                  no feed loops.  Invalid-length family: every case runs in a forked child with
-//                               its own server; hang = the child stays inside ONE handleIncomingData call
-//                               while its CPU clock advances 0.5 s (load-independent), so the sig names the
-//                               feature (`hang:<reference verdict>`).  Elsewhere: vr::run_sharded's stall
+//                               its own server; hang = the child's feeding thread stays inside ONE
+//                               handleIncomingData call while that thread's CPU time advances 1 s
+//                               (load-independent), so the sig names the feature (`hang:<verdict>`).  Elsewhere: vr::run_sharded's stall
 //                               detection (`terminates/hang`), with a heartbeat per feed in the cap family.
 //   no-exception-escapes        nothing is thrown out of handleIncomingData
 //   buffer-within-cap           SessionInfo::buffer never exceeds SessionInfo::MAX_BUFFER_SIZE
@@ -74,6 +74,7 @@
 #include "../oracle/c15_server_ref.hpp"
 
 #include <cxxabi.h>
+#include <dirent.h>
 #include <fcntl.h>
 #include <sched.h>
 #include <sys/resource.h>
@@ -723,6 +724,7 @@ struct Stats
 };
 struct CaseResult
 {
+  int forkedFromThreads = 0; // isolated runs: threads of the forking process (must be 1)
   bool hang = false, crash = false;
   std::string crashInfo;
   std::vector<Finding> findings;
@@ -758,8 +760,36 @@ bool getStr(const std::string &b, size_t &p, std::string &s)
   return true;
 }
 
-double childCpuSeconds(pid_t pid)
+int countThreads()
 {
+  int n = 0;
+  if (DIR *d = opendir("/proc/self/task"))
+  {
+    while (struct dirent *e = readdir(d))
+      if (e->d_name[0] != '.')
+        ++n;
+    closedir(d);
+  }
+  return n;
+}
+
+// CPU time consumed so far by the MAIN thread of process `pid` (the thread that calls
+// handleIncomingData in an isolated child): /proc/<pid>/schedstat is per task and, for the process
+// directory, describes the thread whose tid == pid.  First field: time spent on a CPU, in ns.
+// Falls back to the process-wide CPU clock.
+double feederCpuSeconds(pid_t pid)
+{
+  char path[64];
+  snprintf(path, sizeof path, "/proc/%d/schedstat", (int)pid);
+  FILE *f = fopen(path, "r");
+  if (f)
+  {
+    unsigned long long ns = 0;
+    int n = fscanf(f, "%llu", &ns);
+    fclose(f);
+    if (n == 1)
+      return ns * 1e-9;
+  }
   clockid_t cid;
   if (clock_getcpuclockid(pid, &cid) != 0)
     return 0;
@@ -770,11 +800,13 @@ double childCpuSeconds(pid_t pid)
 }
 
 // Runs one (stream, segmentation) in a forked child with its own fresh server.  Hang verdict: the
-// child stays inside ONE handleIncomingData call (progress word unchanged, in-feed flag set) while its
-// process CPU clock advances by `cpuLimit` seconds -- a normal call needs microseconds, and CPU time,
-// unlike wall time, does not grow when the machine is loaded.  Fallbacks: 10 s of CPU or 12 s of wall
-// time without any progress in any phase (a pool thread that loops, a deadlock).
-CaseResult evalIsolated(const std::string &stream, const c15ref::Parse &ref, const Seg &seg, double cpuLimit = 0.5)
+// child's feeding thread stays inside ONE handleIncomingData call (progress word unchanged, in-feed flag
+// set) while that thread's own CPU time advances by `cpuLimit` seconds.  A normal call needs
+// microseconds of CPU; thread CPU time, unlike wall time or process CPU time, grows neither when the
+// machine is loaded nor when other threads of the child are busy, so the verdict cannot be produced by
+// starvation.  Anything else that stops the child from finishing (a looping pool thread, a deadlock)
+// is left to vr::run_sharded's stall detection of the waiting worker.
+CaseResult evalIsolated(const std::string &stream, const c15ref::Parse &ref, const Seg &seg, double cpuLimit = 1.0)
 {
   CaseResult r;
   int fd[2];
@@ -789,6 +821,7 @@ CaseResult evalIsolated(const std::string &stream, const c15ref::Parse &ref, con
   prog[0] = 0;
   prog[1] = 0;
   fflush(nullptr);
+  r.forkedFromThreads = countThreads();
   pid_t p = fork();
   if (p == 0)
   {
@@ -822,7 +855,7 @@ CaseResult evalIsolated(const std::string &stream, const c15ref::Parse &ref, con
   std::string buf;
   fcntl(fd[0], F_SETFL, fcntl(fd[0], F_GETFL) | O_NONBLOCK);
   uint64_t lastTick = ~uint64_t(0);
-  double cpuAtTick = 0, wallAtTick = vr::now_s();
+  double cpuAtTick = 0;
   while (true)
   {
     char tmp[65536];
@@ -836,23 +869,24 @@ CaseResult evalIsolated(const std::string &stream, const c15ref::Parse &ref, con
         buf.append(tmp, (size_t)k);
       break;
     }
+    // order matters: the CPU reading is taken BEFORE the progress word, so a tick seen unchanged
+    // twice brackets the whole CPU interval
+    double cpu = feederCpuSeconds(p);
     uint64_t tick = prog[0];
     bool inFeed = prog[1] == 1;
-    double cpu = childCpuSeconds(p), wall = vr::now_s();
-    if (tick != lastTick)
+    if (tick != lastTick || !inFeed)
     {
       lastTick = tick;
       cpuAtTick = cpu;
-      wallAtTick = wall;
     }
-    else if ((inFeed && cpu - cpuAtTick > cpuLimit) || cpu - cpuAtTick > 10.0 || wall - wallAtTick > 12.0)
+    else if (cpu - cpuAtTick > cpuLimit)
     {
       kill(p, SIGKILL);
       waitpid(p, &st, 0);
       r.hang = true;
       break;
     }
-    usleep(500);
+    usleep(1000);
   }
   munmap((void *)prog, 4096);
   close(fd[0]);
@@ -1233,7 +1267,16 @@ struct Explorer
   const vr::Args &args;
   const vr::Shard &sh;
   vr::Report &r;
-  Env env;
+  // The worker's own server (with its pool threads) is created on first use, i.e. only after the
+  // invalid-length family has run: an isolated child must be forked from a single-threaded process (a
+  // fork while a starting pool thread holds a libc / sanitizer-runtime lock can deadlock the child).
+  std::unique_ptr<Env> envp;
+  Env &localEnv()
+  {
+    if (!envp)
+      envp.reset(new Env());
+    return *envp;
+  }
   bool thorough;
   uint64_t idx = 0;
   bool stop = false;
@@ -1294,7 +1337,7 @@ struct Explorer
   {
     if (cacheStream != stream || cacheIsolated != isolated)
     {
-      CaseResult c = isolated ? evalIsolated(stream, ref, Seg{}) : evalLocal(env, stream, ref, Seg{});
+      CaseResult c = isolated ? evalIsolated(stream, ref, Seg{}) : evalLocal(localEnv(), stream, ref, Seg{});
       cacheUnsplit = c.findings;
       if (c.hang)
         cacheUnsplit.push_back({"terminates", "hang:" + ref.feature, ""});
@@ -1322,7 +1365,7 @@ struct Explorer
   {
     std::string kase = caseText(fam, seg, stream);
     sh.begin(idx, kase);
-    CaseResult c = isolated ? evalIsolated(stream, ref, seg) : evalLocal(env, stream, ref, seg);
+    CaseResult c = isolated ? evalIsolated(stream, ref, seg) : evalLocal(localEnv(), stream, ref, seg);
     r.evaluations++;
     bool nontrivial = false;
     for (auto &m : ref.msgs)
@@ -1333,6 +1376,9 @@ struct Explorer
     if (nontrivial)
       r.distinct_nontrivial++;
     account(c);
+    if (c.forkedFromThreads > 1)
+      r.violation("harness-internal", "isolated-child-forked-from-multithreaded-worker", kase,
+                  "the forking worker had " + std::to_string(c.forkedFromThreads) + " threads");
     if (c.hang)
     {
       r.violation("terminates", "hang:" + ref.feature, kase,
@@ -1367,11 +1413,11 @@ struct Explorer
           // attribute a failing pair to the single cut that already fails, if any
           bool a1 = false, a2 = false;
           {
-            CaseResult s1 = isolated ? evalIsolated(stream, ref, Seg::cut(seg.c1)) : evalLocal(env, stream, ref, Seg::cut(seg.c1));
+            CaseResult s1 = isolated ? evalIsolated(stream, ref, Seg::cut(seg.c1)) : evalLocal(localEnv(), stream, ref, Seg::cut(seg.c1));
             a1 = hasFinding(s1.findings, f);
             if (!a1)
             {
-              CaseResult s2 = isolated ? evalIsolated(stream, ref, Seg::cut(seg.c2)) : evalLocal(env, stream, ref, Seg::cut(seg.c2));
+              CaseResult s2 = isolated ? evalIsolated(stream, ref, Seg::cut(seg.c2)) : evalLocal(localEnv(), stream, ref, Seg::cut(seg.c2));
               a2 = hasFinding(s2.findings, f);
             }
           }
@@ -1541,6 +1587,7 @@ struct Explorer
         std::string kase = "C15S1 fam=cap:" + std::string(c.name) + " seg=p" + std::to_string(pc) + "\n";
         sh.begin(idx, kase);
         uint64_t myIdx = idx;
+        Env &env = localEnv();
         env.heartbeat = [this, myIdx, kase]() { sh.begin(myIdx, kase); };
         CaseResult cr = evalLocal(env, s, ref, Seg::pieces(pc));
         env.heartbeat = nullptr;
@@ -1701,7 +1748,7 @@ int replay(const vr::Args &args)
          c15ref::tailName(ref.tail), ref.feature.c_str());
   for (auto &m : ref.msgs)
     printf("  expected: %s\n", vr::jstr(fromRef(m).show()).c_str());
-  CaseResult r = evalIsolated(stream, ref, seg, 2.0);
+  CaseResult r = evalIsolated(stream, ref, seg, 3.0);
   int n = 0;
   if (r.hang)
   {
